@@ -186,81 +186,38 @@ Proof. intros H. exact (exec_list_respect wf_pres wf_pres_refl wf_pres_trans wri
   (frame_of_prims wf_pres wf_pres_trans push_frame_wf pop_frame_wf) funcs n ss s H). Qed.
 
 (* ------------------------------------------------------------------ the initial state *)
-Lemma init_globals_wf gs :
-  Forall (fun g => Forall (fun v => in_range (gty g) v = true) (ginit g)) gs -> wf_scope (init_globals gs).
+Lemma init_globals_wf gs acc sc : wf_scope acc -> init_globals gs acc = Some sc -> wf_scope sc.
 Proof.
-  intros H. unfold init_globals, wf_scope. apply Forall_rev. induction H as [|g r Hg Hr IH]; cbn [map]; constructor; [|exact IH].
-  cbn. split; cbn; [|apply pad_length]. apply pad_forall; [apply zero_in_range|exact Hg].
+  revert acc; induction gs as [|g r IH]; intros acc Ha; cbn [init_globals].
+  - intros [= <-]. exact Ha.
+  - destruct (coerce_all (gty g) (ginit g)) as [vs| | | |] eqn:E; try discriminate.
+    apply IH. constructor; [|exact Ha]. cbn. split; cbn; [|apply pad_length].
+    apply pad_forall; [apply zero_in_range|]. eapply coerce_all_in_range; exact E.
 Qed.
 
-Lemma init_state_wf p : globals_in_range p -> wf_state (init_state p).
+Lemma init_state_wf p s0 : init_state p = Some s0 -> wf_state s0.
 Proof.
-  intros H. repeat split; cbn.
-  - apply init_globals_wf. exact H.
+  unfold init_state. destruct (init_globals (pglobals p) []) as [g|] eqn:E; [|discriminate]. intros [= <-].
+  repeat split; cbn.
+  - eapply init_globals_wf; [constructor|exact E].
   - constructor; [|constructor]. unfold wf_frame; cbn. constructor; constructor.
   - constructor.
 Qed.
 
-Lemma store_inv_run_l fuel p : globals_in_range p -> wf_state (final_state fuel p).
-Proof. intros H. unfold final_state. apply store_inv_list. apply init_state_wf. exact H. Qed.
-
-(* checked start-up: whatever the initialisers are, a run that starts at all starts well-formed *)
-Lemma check_globals_in_range gs gs' : check_globals gs = Val gs' ->
-  Forall (fun g => Forall (fun v => in_range (gty g) v = true) (ginit g)) gs'.
+(* every program, every fuel: either an initialiser is rejected and nothing runs, or the run starts
+   and ends in well-formed states *)
+Lemma store_inv_run_l fuel p :
+  match init_state p with
+  | None => final_state fuel p = None /\ run fuel p = ([], Failed ERange)
+  | Some s0 => wf_state s0 /\ exists s, final_state fuel p = Some s /\ wf_state s /\ fst (run fuel p) = rev (sout s)
+  end.
 Proof.
-  revert gs'; induction gs as [|g r IH]; intros gs'; cbn [check_globals].
-  - intros [= <-]. constructor.
-  - unfold check_global. destruct (coerce_all (gty g) (ginit g)) as [vs| | | |] eqn:E; try discriminate.
-    destruct (check_globals r) as [r'| | | |]; try discriminate. intros [= <-].
-    constructor; [cbn; eapply coerce_all_in_range; exact E|apply IH; reflexivity].
+  unfold final_state, run. destruct (init_state p) as [s0|] eqn:E; [|split; reflexivity].
+  pose proof (init_state_wf _ _ E) as H0. split; [exact H0|]. eexists. split; [reflexivity|]. split.
+  - apply store_inv_list. exact H0.
+  - destruct (exec_list _ _ _) as [c s]. reflexivity.
 Qed.
 
-Lemma store_inv_run_checked_l fuel p gs : check_globals (pglobals p) = Val gs ->
-  wf_state (final_state fuel (with_globals p gs)) /\
-  run_c04 fuel p = run fuel (with_globals p gs).
-Proof.
-  intros H. split.
-  - apply store_inv_run_l. unfold globals_in_range; cbn. eapply check_globals_in_range; exact H.
-  - unfold run_c04. rewrite H. reflexivity.
-Qed.
-
-(* [run] is [final_state] seen from outside *)
-Lemma run_final fuel p : fst (run fuel p) = rev (sout (final_state fuel p)).
-Proof.
-  unfold run, final_state. destruct (exec_list _ _ _) as [c s]. reflexivity.
-Qed.
-
-(* in-range non-negative-for-unsigned initialisers: the checked start is the plain one *)
-Lemma coerce_id t v : in_range t v = true -> (uns t = true -> 0 <= v) -> coerce t v = Val v.
-Proof.
-  intros Hr Hu. unfold coerce. destruct (uns t) eqn:Eu; cbn [andb].
-  - destruct (v <? 0) eqn:E; [apply Z.ltb_lt in E; specialize (Hu eq_refl); lia|]. rewrite Hr. reflexivity.
-  - rewrite Hr. reflexivity.
-Qed.
-Lemma in_range_unsigned_nonneg t v : in_range t v = true -> uns t = true -> base t <> TBool -> 0 <= v.
-Proof.
-  destruct t as [b u]; cbn. intros H -> Hb. destruct b; try congruence; unfold in_range in H; cbn in H;
-    apply andb_true_iff in H as [H _]; apply Z.leb_le in H; exact H.
-Qed.
-Lemma coerce_all_id t vs : Forall (fun v => in_range t v = true /\ (uns t = true -> 0 <= v)) vs -> coerce_all t vs = Val vs.
-Proof.
-  induction 1 as [|v r [Hr Hu] _ IH]; cbn [coerce_all]; [reflexivity|]. rewrite (coerce_id _ _ Hr Hu), IH. reflexivity.
-Qed.
-Lemma check_globals_id gs :
-  Forall (fun g => Forall (fun v => in_range (gty g) v = true /\ (uns (gty g) = true -> 0 <= v)) (ginit g)) gs ->
-  check_globals gs = Val gs.
-Proof.
-  induction 1 as [|g r Hg _ IH]; cbn [check_globals]; [reflexivity|].
-  unfold check_global. rewrite (coerce_all_id _ _ Hg), IH. destruct g; reflexivity.
-Qed.
-Lemma run_c04_agrees_l fuel p :
-  Forall (fun g => Forall (fun v => in_range (gty g) v = true /\ (uns (gty g) = true -> 0 <= v)) (ginit g)) (pglobals p) ->
-  run_c04 fuel p = run fuel p.
-Proof.
-  intros H. unfold run_c04. rewrite (check_globals_id _ H). destruct p; reflexivity.
-Qed.
-
-(* a rejected global initialiser ends the program before anything runs *)
 Lemma coerce_shape t v : (exists w, coerce t v = Val w) \/ coerce t v = Fail ERange.
 Proof. unfold coerce. destruct (uns t && (v <? 0)); [left; eauto|]. destruct (in_range t v); [left; eauto|right; reflexivity]. Qed.
 Lemma coerce_all_shape t vs : (exists ws, coerce_all t vs = Val ws) \/ coerce_all t vs = Fail ERange.
@@ -275,34 +232,27 @@ Proof.
   - rewrite Hf. reflexivity.
   - destruct (coerce_shape t w) as [[w' ->]| ->]; [|reflexivity]. rewrite (IH Hin Hf). reflexivity.
 Qed.
-Lemma check_globals_rejects gs g v :
-  In g gs -> In v (ginit g) -> coerce (gty g) v = Fail ERange -> check_globals gs = Fail ERange.
+
+(* a rejected global initialiser ends the program before anything runs *)
+Lemma init_globals_rejects gs acc g v :
+  In g gs -> In v (ginit g) -> coerce (gty g) v = Fail ERange -> init_globals gs acc = None.
 Proof.
-  induction gs as [|h r IH]; [intros []|]. intros [->|Hin] Hv Hc; cbn [check_globals]; unfold check_global.
+  revert acc; induction gs as [|h r IH]; intros acc; [intros []|]. intros [->|Hin] Hv Hc; cbn [init_globals].
   - rewrite (coerce_all_rejects _ _ _ Hv Hc). reflexivity.
-  - destruct (coerce_all_shape (gty h) (ginit h)) as [[ws ->]| ->]; [|reflexivity].
-    rewrite (IH Hin Hv Hc). reflexivity.
+  - destruct (coerce_all (gty h) (ginit h)); try reflexivity. apply IH; assumption.
 Qed.
-Lemma run_c04_rejects_l fuel p g v :
-  In g (pglobals p) -> In v (ginit g) -> coerce (gty g) v = Fail ERange ->
-  run_c04 fuel p = ([], Failed ERange).
-Proof. intros Hg Hv Hc. unfold run_c04. rewrite (check_globals_rejects _ _ _ Hg Hv Hc). reflexivity. Qed.
-
-Lemma check_globals_shape gs : (exists gs', check_globals gs = Val gs') \/ check_globals gs = Fail ERange.
+Lemma run_rejects_l fuel p g v :
+  In g (pglobals p) -> In v (ginit g) -> coerce (gty g) v = Fail ERange -> run fuel p = ([], Failed ERange).
 Proof.
-  induction gs as [|g r IH]; cbn [check_globals]; [left; eauto|]. unfold check_global.
-  destruct (coerce_all_shape (gty g) (ginit g)) as [[ws ->]| ->]; [|right; reflexivity].
-  destruct IH as [[r' ->]| ->]; [left; eauto|right; reflexivity].
+  intros Hg Hv Hc. unfold run, init_state. rewrite (init_globals_rejects _ [] _ _ Hg Hv Hc). reflexivity.
 Qed.
 
-Lemma store_inv_run_checked_full_l fuel p :
-  (exists e, check_globals (pglobals p) = Fail e /\ run_c04 fuel p = ([], Failed e)) \/
-  (exists gs, check_globals (pglobals p) = Val gs /\ wf_state (final_state fuel (with_globals p gs)) /\
-              run_c04 fuel p = run fuel (with_globals p gs)).
+(* in-range initialisers (non-negative for unsigned types) are stored as they are *)
+Lemma coerce_id t v : in_range t v = true -> (uns t = true -> 0 <= v) -> coerce t v = Val v.
 Proof.
-  destruct (check_globals_shape (pglobals p)) as [[gs E]|E].
-  - right. exists gs. split; [exact E|]. exact (store_inv_run_checked_l fuel p gs E).
-  - left. exists ERange. split; [exact E|]. unfold run_c04. rewrite E. reflexivity.
+  intros Hr Hu. unfold coerce. destruct (uns t) eqn:Eu; cbn [andb].
+  - destruct (v <? 0) eqn:E; [apply Z.ltb_lt in E; specialize (Hu eq_refl); lia|]. rewrite Hr. reflexivity.
+  - rewrite Hr. reflexivity.
 Qed.
 
 Lemma boundary_values_admitted_l t lo hi : range t = Some (lo, hi) ->
